@@ -399,7 +399,13 @@ def periodic_mesh(rng, kind):
     """Discontinuous/periodic topologies (Mesh*DG.init_tensor(periodic=...)): the cell list identifies opposite
     boundary vertices; the geometry lives in the DG geometry element and is not used by the index oracles."""
     import skfem
-    ax = lambda n: np.unique(np.concatenate([[0.0, 1.0], G.dyadic(rng, n, bits=5)]))
+    def ax(n):
+        # at least two cells along every direction: with a single cell the cell would lie on both identified sides,
+        # which the library refuses (ValueError "part of two periodic boundaries")
+        while True:
+            a = np.unique(np.concatenate([[0.0, 1.0], G.dyadic(rng, n, bits=5)]))
+            if a.size >= 3:
+                return a
     if kind == "line":
         return skfem.MeshLine1DG.init_tensor(ax(int(rng.integers(2, 6))), periodic=[0])
     if kind == "tri":
